@@ -29,7 +29,7 @@ RULE = (
 )
 ASSUMPTIONS = ["names contain no line breaks (control characters are outside the domain)"]
 BUDGET = {"quick": (220, 4), "thorough": (32000, 16)}
-REQUIRED = ["nested", "multi_action_file", "no_history", "sf_noroot", "sf_root", "sf_relative", "deep_nesting", "renamed_file", "bulk_history", "symlinked_file", "sf_multi_noroot", "sf_multi_root", "no_own_history_but_below", "verbose", "sf_verbose", "root_relative"]
+REQUIRED = ["nested", "multi_action_file", "no_history", "sf_noroot", "sf_root", "sf_relative", "deep_nesting", "renamed_file", "bulk_history", "symlinked_file", "sf_multi_noroot", "sf_multi_root", "no_own_history_but_below", "verbose", "sf_verbose", "root_relative", "read_in_other_zone"]
 
 CFG = {
     "kinds": ["create"] * 6 + ["create_sf"] * 2 + ["put_new", "overwrite", "overwrite", "restore"],
@@ -69,6 +69,8 @@ def _scn(draw):
         scn["root"] = draw(st.sampled_from(["Shoot [day 1]", "card[2]", "x[!a]y", "st*r", "wh?t", "{a,b}"]))  # names special to glob
     # a symbolic link to a file in another folder (possibly in another history): info -sf LINK is about the link's own records
     scn["symlink"] = draw(st.booleans())
+    # (zone the generations are written in, zone info runs in) - the dates are printed as the manifests hold them
+    scn["tz"] = draw(st.sampled_from([[None, None], [None, None], ["<+09>-9", "<+01>-1"], ["America/Los_Angeles", "Asia/Kolkata"], ["UTC", "Pacific/Kiritimati"], ["Australia/Lord_Howe", "UTC"]]))
     return scn
 
 
@@ -146,11 +148,35 @@ def parse_info(out, verbose=False):
     return blocks
 
 
+def _set_tz(name):
+    import os as _os
+    import time as _time
+
+    if name is None:
+        _os.environ.pop("TZ", None)
+    else:
+        _os.environ["TZ"] = name
+    _time.tzset()
+
+
 def run_case(scn, ctx):
     if scn.get("kind") == "bulk":
         return run_bulk(scn, ctx)
+    import os as _os
+
+    old_tz = _os.environ.get("TZ")
+    try:
+        return _run_case(scn, ctx)
+    finally:
+        _set_tz(old_tz)
+
+
+def _run_case(scn, ctx):
     feats = set()
+    tzs = scn.get("tz") or [None, None]
     with World("c19") as w:
+        if tzs[0]:
+            _set_tz(tzs[0])  # the zone the generations are written in
         hist.setup_world(w, scn)
         top = scn["root"]
         # no history yet
@@ -169,6 +195,9 @@ def run_case(scn, ctx):
             feats.add("symlinked_file")
         for step in scn["steps"]:
             hist.apply_step(w, scn, step)
+        if tzs[1]:
+            _set_tz(tzs[1])  # ... and the zone of the machine that reads them: the dates are reported as written
+            feats.add("read_in_other_zone")
         roots = w.history_roots()
         docs = {r: w.read_history(r) for r in roots}
         if len(roots) >= 2:
